@@ -11,6 +11,8 @@ inductive PyErr where
   | typeError | valueError | keyError | overflowError | attributeError | indexError | mathDomain | unmodelled
   deriving DecidableEq, Repr
 
+deriving instance DecidableEq for Except
+
 structure Time where
   year : Option Int := none
   month : Option Int := none
